@@ -299,17 +299,17 @@ def compare_sequence(cases, epg, tol1=1e-8, tol2=1e-7):
         except Exception as exc:
             # a decay time that evaluates (own evaluation of the expressions) to a negative number must be rejected
             try:
-                neg = any(np.real(c.get("tau", 0)) < 0 for c in spec_lines_seq(case)[1])
+                neg = any(np.real(c.get(p, 0)) < 0 for c in spec_lines_seq(case)[1] for p in ("tau", "T1", "T2"))
             except Exception:
                 neg = False
-            if neg and isinstance(exc, ValueError) and "negative time" in str(exc):
+            if neg and isinstance(exc, ValueError) and ("negative time" in str(exc) or "negative relaxation time" in str(exc)):
                 expect.append(("rejected",))
                 continue
             expect.append(("error", repr(exc)))
             continue
         ls, concrete = spec_lines_seq(case)
-        if any(np.real(c.get("tau", 0)) < 0 for c in concrete):
-            expect.append(("error", "a negative decay time was accepted by the sequence"))
+        if any(np.real(c.get(p, 0)) < 0 for c in concrete for p in ("tau", "T1", "T2") if c.get("op") in ("E", "P")):
+            expect.append(("error", "a negative decay / relaxation time was accepted by the sequence"))
             continue
         lines += ls
         # hand-built concrete operators with the evaluated arguments
